@@ -402,7 +402,9 @@ def check_seq(c, model, harness):
                     break
                 reported.add(key)
                 alone = seq_rerun(c, harness, pubs, [s for s in hist[:-1] if s[0] == "K" and s[1] == st[1]] + [st], "alone")
-                alone_v = " ".join(alone[0][-1]) if alone and alone[0] else "?"
+                alone_raw = alone[0][-1] if alone and alone[0] else ["?"]
+                alone_v = "accepted" if alone_raw == ["A"] else ("rejected naming %r" % unhex(alone_raw[1]).decode("utf-8", "replace")
+                                                                if len(alone_raw) > 1 else " ".join(alone_raw))
                 dropped = [x for x in nonpublic if x not in set(mres[n][2])]
                 if key == "C20:accepts-nonpublic" and nonpublic and set(dropped) == set(nonpublic) and st[2] == "Y":
                     key = "C20:symbol-dropped-by-typer"
@@ -410,9 +412,9 @@ def check_seq(c, model, harness):
                 small, reproduced = seq_shrink(c, harness, pubs, hist, j[0], mapss) if len(hist) > 1 else (hist, True)
                 rep = dict(rep, seqcase=spec_line(pubs, small), history=pretty_history(small), observed_history=pretty_history(hist),
                            verdict_of_the_query_validated_alone=alone_v, reproduced_in_fresh_process=reproduced)
-                if len(small) > 1 and alone_v != " ".join(verdicts[n]):
+                if len(small) > 1 and alone_raw != verdicts[n]:
                     what += (" - AFTER the history %s on store%d with public names %s; validated alone on a fresh store the same query "
-                             "gets %s: the verdict depends on what was validated before (validation must be a function of the query "
+                             "is %s: the verdict depends on what was validated before (validation must be a function of the query "
                              "and the store's public symbols)" % (pretty_history(small[:-1]), st[1],
                                                                  sorted(x.decode() for x in intended[n]), alone_v))
                 else:
@@ -440,6 +442,8 @@ def main(argv):
         "generic model Ast/Visitor.v (what a table-following visitor sees; IsPublicSymbol; first-error latch)",
         "model Ast/PublicCfg.v of the store configuration API (addSymbol / AddMapSymbol / MakeSymbolPublic / GrantSymbols): symbol NAMES "
         "decide, bucket keys are recorded and never read; compared with real stores on every configuration of the run",
+        "model Ast/ValidateSeq.v: a history of validations is answered step by step by [validate] (nothing carried from call to call); real "
+        "stores live through the same histories (c20_seq.go) and every verdict is judged on its own",
         "the explicit exclusion list gen_aliases (AllOf/AnyOfSetExprNode.name, AnyOfSetExprNode.seekablePredicate): part of `shaped`, "
         "evaluated by the extracted model on every real tree of the run",
         "extraction (ExtrOcamlBasic only) + extraction/c20_driver.ml + drv_common.ml",
